@@ -263,12 +263,15 @@ def run(ck):
     ssa = T.calls(nx, name="same_source_as")
     somes = [(i, j, st) for i, j, st in nx.statements() if st["s"] == "assign" and st["pl"]["l"] in T.ret_locals(nx) and st["rv"]["r"] == "agg" and st["rv"].get("variant") == "Some" and not nx.is_cleanup(i)]
     finds = [cs for cs in T.calls(nx, name="find") if (cs.trait or "") == "std::iter::Iterator" and not nx.is_cleanup(cs.bb) and T.path_has(nx, cs.args[0], ".inner")]
-    if finds and not somes:
+    if finds and not ssa:
         # the same filter spelled self.inner.find(|e| e.token.inner.same_source_as(wanted)).map(..)
         from props import common as _c
 
         for fd in finds:
             ok = T.tainted_by_call(nx, {"c": {"l": 0, "p": [], "t": 0}}, [fd.bb])
+            f_some, f_none = T.option_split(nx, fd.bb)
+            # a yield built in next() itself (`.map(|e| (e.readiness, e.token))`) sits on the Some edge of find()
+            ok = ok and all(bool(f_some) and T.reachable_only_via(nx, i, f_some) for i, j, st in somes)
             preds = T.closure_bodies_passed(nx, fd)
             ok = ok and bool(preds)
             for cb in preds:
